@@ -823,6 +823,8 @@ def _replay_blur(case, clause, model, seed):
             cut = 1.5
             for sn in snaps.snapshots:
                 sn.positions[0] = np.array([1.5] + [0.0] * (d - 1))
+                if N >= 2:
+                    sn.positions[1] = np.zeros(d)       # a particle exactly ON a grid point (distance 0): it contributes the peak weight
         keepC = C.copy()
         tried += 1
         inputs = {"ngrids": list(ng), "T": T, "N": N, "trailing": dims, "exact-tie-at-cutoff": tie, "positions[0][0]": snaps.snapshots[0].positions[0].tolist(), "sigma": sigma, "gaussian_cut": cut, "ppp": ppp[:d].tolist(),
